@@ -56,9 +56,10 @@ static void exp_begin(int x, const std::string &items)
 }
 static sdkcommon::ExportResult exp_end(int x)
 {
-  bool fail = g_expfail && vs::choose(2) == 1;
-  emitf("{\"e\":\"XEnd\",\"x\":%d,\"ok\":%s}", x, fail ? "false" : "true");
-  return fail ? sdkcommon::ExportResult::kFailure : sdkcommon::ExportResult::kSuccess;
+  int res = g_expfail ? vs::choose(3) : 0;  // success, kFailure, kFailureFull
+  emitf("{\"e\":\"XEnd\",\"x\":%d,\"ok\":%s}", x, res ? "false" : "true");
+  return res == 0 ? sdkcommon::ExportResult::kSuccess
+                  : (res == 1 ? sdkcommon::ExportResult::kFailure : sdkcommon::ExportResult::kFailureFull);
 }
 static bool exp_ff(int x)
 {
